@@ -737,6 +737,13 @@ fn exec_inner<const N: usize, P: Pad>(buf: &mut Buf<N, P>, op: &Op, env: &mut En
                         // Debug of a live drain touches exactly the not-yet-yielded elements
                         let _s = Suspend::new();
                         let _ = format!("{:?}", d);
+                        // ... and formatting into a sink that fails part-way must leave it intact
+                        #[cfg(feature = "has-std")]
+                        {
+                            use std::io::Write as _;
+                            let mut sink = [0u8; 2];
+                            let _ = write!(&mut sink[..], "{:?}", d);
+                        }
                     }
                 }
                 match end {
@@ -1167,6 +1174,9 @@ pub fn check_views<const N: usize, P: Pad>(buf: &Buf<N, P>, obs: &Obs, ctx: &mut
         bad(ctx, "back", format!("back() = {:?}, expected {:?}", b, wb));
     }
     let (s1, s2) = buf.as_slices();
+    // where the contents split is unspecified (never judged against the model) but it is a result
+    // of an operation: it goes into the trace digest compared across builds (C16/C18)
+    trace_num(0xEA, ((s1.len() as u64) << 32) ^ s2.len() as u64);
     let sl: Vec<(u64, usize)> = s1.iter().chain(s2.iter()).map(key).collect();
     let want_all: Vec<(u64, usize)> = obs.ids.iter().copied().zip(obs.addrs.iter().copied()).collect();
     if sl != want_all {
